@@ -13,6 +13,7 @@ import (
 	"io"
 	"net/http"
 	"strings"
+	"sync"
 	"time"
 
 	"github.com/metrico/qryn/writer/model"
@@ -193,7 +194,35 @@ func getBodyStream(r *http.Request) io.Reader {
 	return r.Body
 }
 
-func doParse(r *http.Request, parser Parser) error {
+// requestFpCache records the series-cache keys a request marks as known, so that they can be
+// forgotten again if the request fails: the series rows of that request may never have been stored.
+type requestFpCache struct {
+	numbercache.ICache[uint64]
+	mtx   sync.Mutex
+	added []uint64
+}
+
+func (c *requestFpCache) CheckAndSet(key uint64) bool {
+	known := c.ICache.CheckAndSet(key)
+	if !known {
+		c.mtx.Lock()
+		c.added = append(c.added, key)
+		c.mtx.Unlock()
+	}
+	return known
+}
+
+func (c *requestFpCache) rollback() {
+	if u, ok := c.ICache.(interface{ Unset(uint64) }); ok {
+		c.mtx.Lock()
+		defer c.mtx.Unlock()
+		for _, key := range c.added {
+			u.Unset(key)
+		}
+	}
+}
+
+func doParse(r *http.Request, parser Parser) (err error) {
 	reader := getBodyStream(r)
 	tsService := getService(r, "tsService")
 	splService := getService(r, "splService")
@@ -204,8 +233,13 @@ func doParse(r *http.Request, parser Parser) error {
 
 	//var promises []chan error
 	var promises []*promise.Promise[uint32]
-	var err error = nil
-	res := parser(r.Context(), reader, FPCache.DB(node))
+	fpCache := &requestFpCache{ICache: FPCache.DB(node)}
+	defer func() {
+		if err != nil {
+			fpCache.rollback()
+		}
+	}()
+	res := parser(r.Context(), reader, fpCache)
 	for response := range res {
 		if response.Error != nil {
 			go func() {
